@@ -813,11 +813,18 @@ func takeWhileRules(c *core.Ctx, pkg string, pair bool) {
 // litHolds: exactly one field of the literal holds parameter i of fn.
 func litHolds(lit *ir.Term, fn *ssa.Function, i int) bool {
 	n := 0
-	for _, kv := range ir.LitFields(lit) {
-		if paramOf(kv.Args[0], fn, i) {
-			n++
+	var walk func(l *ir.Term, depth int)
+	walk = func(l *ir.Term, depth int) {
+		for _, kv := range ir.LitFields(l) {
+			v := kv.Args[0]
+			if paramOf(v, fn, i) {
+				n++
+			} else if v.Op == "lit" && depth < 3 {
+				walk(v, depth+1) // fields grouped in an embedded helper struct
+			}
 		}
 	}
+	walk(lit, 0)
 	return n == 1
 }
 
